@@ -65,6 +65,8 @@ pub tracked struct Heap {
     pub ghost st: Map<int, NodeSt>,
     pub ghost locked: Set<int>,
     pub ghost out: nat,
+    // the texts written by print (R16: `print!("{}", e)` appends the value of e); other output events leave it unspecified
+    pub ghost log: Seq<Seq<char>>,
 }
 
 pub open spec fn alive(h: Heap, n: int) -> bool { h.st.dom().contains(n) }
@@ -569,7 +571,7 @@ pub proof fn lemma_finish(h0: Heap, h1: Heap, h2: Heap, me: int, mark: bool)
 {
     lemma_not_locked(h0, me);
     assert(h2.locked =~= h0.locked);
-    let hm = Heap { st: h1.st, locked: h2.locked, out: h2.out };
+    let hm = Heap { st: h1.st, locked: h2.locked, out: h2.out, log: h2.log };
     lemma_inv_same_st(h1, hm);
     if mark { lemma_mark(hm, h2, me); } else { lemma_inv_same_st(h1, h2); }
     assert forall|m: int| #[trigger] alive(h0, m) implies alive(h2, m)
@@ -762,6 +764,12 @@ pub proof fn lemma_walk(h: Heap, h2: Heap, n: int)
 #[verifier::external_body]
 pub fn verif_print(Tracked(h): Tracked<&mut Heap>)
     ensures final(h).st == old(h).st, final(h).locked == old(h).locked, final(h).out == old(h).out + 1,
+{ unimplemented!() }
+// R16  print!("{}", e): one output event whose text is the value of e
+#[verifier::external_body]
+pub fn verif_print_text(s: &String, Tracked(h): Tracked<&mut Heap>)
+    ensures final(h).st == old(h).st, final(h).locked == old(h).locked, final(h).out == old(h).out + 1,
+            final(h).log == old(h).log.push(s@),
 { unimplemented!() }
 // R2d  panic!(..) in a function whose claims are about calls that return
 #[verifier::external_body]
